@@ -363,7 +363,7 @@ def generate(prop, rng, tier):
                           "elements": rng.sample([1, 2, 3, 5, 8, 13], n_el),
                           "k_1": [rng.choice([3.0, 5.0, 7.5]) for _ in range(n_el)],
                           "ND": [rng.choice([1e6, 2e6, 5e5]) for _ in range(n_el)],
-                          "SD": [rng.choice([100.0, 250.0, 320.0]) for _ in range(n_el)],
+                          "SD": [rng.choice([100.0, 250.0, 320.0]) if rng.random() > 0.04 else 0.0 for _ in range(n_el)],   # 0: no endurance limit at all
                           "k_2": [rng.choice([float("inf"), 9.0, 13.0, 9.5]) for _ in range(n_el)],
                           "k1_int": rng.random() < 0.3,
                           "TN": rng.choice([1.0, 1.0, 4.0, 12.0]), "TS": rng.choice([1.0, 1.0, 1.25]),
@@ -1071,18 +1071,22 @@ def _wc_step(st, k, out, log):
             z = norm.ppf(native_fp) - norm.ppf(fp)
             SD_t = SD / 10 ** (z * math.log10(TS) / 2.5631031311)
             ND_t = ND / 10 ** (z * math.log10(TN) / 2.5631031311)
-            ND_t *= (SD_t / SD) ** (-float(st["k_1"][ie]))
+            if SD != 0:
+                ND_t *= (SD_t / SD) ** (-float(st["k_1"][ie]))
             SD, ND = SD_t, ND_t
         if calc == "cycles":
             L = float(st["loads"][is_])
             kk = float(st["k_1"][ie]) if not L < SD else float(st["k_2"][ie])
-            want = ND * (L / SD) ** (-kk) if math.isfinite(kk) else float("inf")
+            if SD == 0:
+                want = 0.0 if math.isfinite(kk) else float("inf")        # (L / 0) ** -k: no load at all is survived
+            else:
+                want = ND * (L / SD) ** (-kk) if math.isfinite(kk) else float("inf")
         else:
             N = float(st["cycles"][is_])
             kk = float(st["k_1"][ie]) if not N > ND else float(st["k_2"][ie])
             want = SD * (N / ND) ** (-1.0 / kk) if math.isfinite(kk) else SD
         got = float(v[0]) if v[0] != "nan" else float("nan")
-        ok = (math.isinf(want) and got == want) or (math.isfinite(want) and abs(got - want) <= 1e-10 * abs(want))
+        ok = (math.isinf(want) and got == want) or (math.isfinite(want) and abs(got - want) <= 1e-10 * abs(want)) or (want == 0.0 and got == 0.0)
         if not ok:
             out.violate("B4-derived-calculation", "cycles", {"step": k, "element": e, "scenario": s, "got": got, "want": want})
             return False
